@@ -9,7 +9,7 @@ import (
 )
 
 type CompositeConf struct {
-	Nested []core.Schedule `config:"nested"`
+	Nested []core.Schedule `config:"nested" validate:"dive,required"`
 }
 
 func NewCompositeConf(conf CompositeConf) core.Schedule {
